@@ -40,6 +40,7 @@ def f_check(plan, dq=150, dt=900):
             "deadline": {"quick": dq, "thorough": dt}, "rule": RULE_F, "assumptions": ASSUME_F}
 
 
+A = ["harness/engine_a.c"] + COMMON
 CHECKS = {
     "C01": s_check("c01", opts={"quick": {"isa_n": 12}}),
     "C02": s_check("c02"),
@@ -54,6 +55,15 @@ CHECKS = {
     "C11": f_check("c11"),
     "C12": f_check("c12"),
     "C20": f_check("c20"),
+    "C13": {"runs": [{"name": "args", "plan": "args", "srcs": A, "san": "asan"}], "level": "model_checking",
+            "deadline": {"quick": 150, "thorough": 900},
+            "rule": ("full cross product of per-argument alphabets {valid, NULL, boundary, out-of-range} for every public entry point against live rs_vand / flat_xor_hd / "
+                     "isa_l / null instances and dead descriptors, plus the configuration box backend id x k in -1..33 x m in -1..33 x hd x w; every tuple is one real call "
+                     "(accepted configurations run a full create-query-encode-decode-reconstruct-destroy cycle); non-trivial = at least one argument is invalid, or the "
+                     "configuration was accepted and completed the cycle; ledger compared before/after every call"),
+            "assumptions": ["NULL *elements* inside a fragment array and out-of-range indexes inside fragments_needed's lists are not in the alphabet (the statement names neither)",
+                            "a fragment_len >= 80 that is smaller than the real fragments is not in the alphabet (recorded as an out-of-scope observation in DESIGN.md 9)",
+                            "allocation failure is not injected", "Jerasure, SHSS and libphazr are not installed: their ids are exercised only up to the 'backend not available' refusal"]},
     "C19": {"runs": [
         {"name": "c19rt", "plan": "c19rt", "srcs": S, "san": "asan", "opts": {"quick": {"ex_n": 10, "st_lens": 2}}},
         {"name": "c19rc", "plan": "c19rc", "srcs": S, "san": "asan", "opts": {"quick": {"ex_n": 8, "st_lens": 1, "ex_lens": 2, "max_n": 16}}},
